@@ -4,6 +4,7 @@
 #include "jlsdec.h"
 #include <stdlib.h>
 #include <string.h>
+#include <errno.h>
 #include <stdarg.h>
 #include <fcntl.h>
 #include <unistd.h>
@@ -58,6 +59,14 @@ void iolog_reset(void) {
     g_io.fd = -1;
     g_io.on_event = cb; g_io.before_io = bf;
 }
+
+/* A hole [far_h, far_h + far_l) of file offsets as the library sees them that does not exist in the real file: behind it,
+ * library offset = real offset + far_l.  The library works with positions beyond 2^32 while the file, the shadow copy and
+ * every rule of the monitor stay small.  Survives iolog_start (the reader of the same file needs the same view). */
+static int64_t far_h = -1, far_l = 0;
+void iolog_far_hole(int64_t at, int64_t len) { far_h = len ? at : -1; far_l = len ? len : 0; }
+static int64_t lib2real(int64_t x) { if (far_h < 0 || x < far_h) return x; if (x < far_h + far_l) return far_h; return x - far_l; }
+static int64_t real2lib(int64_t r) { return (far_h >= 0 && r >= far_h) ? r + far_l : r; }
 
 static void sh_reserve(size_t n) {
     if (n > g_io.sh_cap) {
@@ -201,7 +210,7 @@ static void monitor_write(int64_t pos, const uint8_t *buf, size_t n) {
             snprintf(key, sizeof(key), "head-entry-changed|%s", tagname(c->tag));
             v_violation("C14", key, NULL, "head table of chunk at %llu: entry %d changed from %llu to %llu", (unsigned long long) c->off, l,
                         (unsigned long long) o, (unsigned long long) w);
-        } else if (!ck_is_start(w)) {
+        } else if (!ck_is_start((uint64_t) lib2real((int64_t) w))) {
             snprintf(key, sizeof(key), "head-entry-target|%s", tagname(c->tag));
             v_violation("C14", key, NULL, "head table of chunk at %llu: entry %d set to %llu which is not an existing chunk", (unsigned long long) c->off, l,
                         (unsigned long long) w);
@@ -295,13 +304,19 @@ ssize_t __wrap_write(int fd, const void *buf, size_t n) {
 }
 
 off_t __wrap_lseek(int fd, off_t off, int whence) {
+    int tracked = g_io.enabled && fd == g_io.fd && fd >= 0;
+    if (tracked && far_h >= 0 && whence == SEEK_SET) {
+        if (off >= far_h && off < far_h + far_l && off != far_h) { errno = EINVAL; return -1; }   /* inside the hole: nothing is there */
+        off = (off_t) lib2real(off);
+    }
     off_t r = __real_lseek(fd, off, whence);
-    if (g_io.enabled && fd == g_io.fd && fd >= 0 && r >= 0) g_io.pos = r;
+    if (tracked && r >= 0) { g_io.pos = r; if (far_h >= 0) r = (off_t) real2lib(r); }
     return r;
 }
 
 int __wrap_ftruncate(int fd, off_t len) {
     if (g_io.enabled && fd == g_io.fd && fd >= 0) {
+        if (far_h >= 0) len = (off_t) lib2real(len);
         io_ev_t *e = ev_add(IO_TRUNC, fd, len, 0);
         g_io.n_trunc++;
         if (g_io.monitor) v_violation("C14", "truncate", NULL, "writer truncated the file to %lld (size %zu)", (long long) len, g_io.sh_n);
